@@ -113,7 +113,7 @@ Proof. intro H. rewrite strip_app by assumption. change (strip_markers m_end) wi
 Lemma esc_false v p : mstr v -> ascii p = true -> escape_from v p false = v ++ p.
 Proof.
   intros Hv Hp. destruct p as [|x p].
-  - unfold escape_from. cbn [List.length escape_loop rev app].
+  - unfold escape_from. rewrite ?frev_eq. cbn [List.length escape_loop rev app].
     pose proof (mstr_lri v Hv) as L. unfold last_rune_invalid in L. rewrite L.
     now rewrite rev_involutive, app_nil_r.
   - apply escape_from_ascii; [discriminate|assumption|discriminate].
